@@ -397,7 +397,7 @@ class GaussProcAdditiveEstimator(Estimator):
             n_pending = fantasies[0].size
             start = r_min + n_observed
             resources = list(range(start, start + n_pending))
-            fantasy_matrix = np.hstack(v.reshape((-1, 1)) for v in fantasies)
+            fantasy_matrix = np.hstack([v.reshape((-1, 1)) for v in fantasies])
             assert fantasy_matrix.shape == (n_pending, self.num_fantasy_samples)
             for resource, fantasy in zip(resources, fantasy_matrix):
                 pending_evaluations_with_fantasies.append(
